@@ -92,7 +92,8 @@ Qed.
    not closed; it has no handle exactly when it was closed; a publisher has no room number exactly when it was closed
    (a subscriber keeps the room number of its publisher); as long as it is open the gateway holds exactly one handle
    for it when its handle field is live and none otherwise, and exactly one room when it is a publisher whose room is
-   live and none otherwise; no room is ever held for a subscriber; a publisher is owned by its own session. *)
+   live and none otherwise; no room is ever held for a subscriber; a publisher is owned by its own session and its
+   handle and room number are in the same state (both none, both live or both forgotten by the gateway). *)
 Definition obj_ok (st : state) (x : client) : Prop :=
   c_id x <> 0 /\ c_id x < m_next st /\
   memN (c_id x) (m_clients st) = negb (c_closed x) /\
@@ -101,7 +102,7 @@ Definition obj_ok (st : state) (x : client) : Prop :=
   (c_kind x = Sub -> hs_is_none (c_room x) = false /\ countN (c_id x) (g_rooms st) = 0) /\
   (c_closed x = false -> countN (c_id x) (g_handles st) = (if hs_is_live (c_handle x) then 1 else 0)) /\
   (c_closed x = false -> countN (c_id x) (g_rooms st) = (if is_pub (c_kind x) && hs_is_live (c_room x) then 1 else 0)) /\
-  (c_kind x = Pub -> c_owner x = c_sid x).
+  (c_kind x = Pub -> c_owner x = c_sid x /\ c_handle x = c_room x).
 
 Record JInv (st : state) : Prop := {
   J_next : 1 <= m_next st;
@@ -204,6 +205,8 @@ Proof.
       * intros K. rewrite K. reflexivity.
       * rewrite H. simpl. apply (O6 H).
       * rewrite H. simpl. apply (O6 H).
+      * apply (O9 H).
+      * rewrite H. reflexivity.
     + assert (E' : N.eqb (c_id x) (c_id y) = false) by (rewrite N.eqb_sym; exact E).
       unfold obj_ok; simpl. rewrite memN_removeN, E'. simpl. rewrite andb_true_r.
       assert (CH : countN (c_id y) (if handle_ok st x && negb rt then remove1 (c_id x) (g_handles st) else g_handles st)
@@ -213,7 +216,7 @@ Proof.
                                     then remove1 (c_id x) (g_rooms st) else g_rooms st) = countN (c_id y) (g_rooms st)).
       { destruct (is_pub (c_kind x) && handle_ok st x && hs_is_live (c_room x) && negb rd); [|reflexivity].
         now rewrite countN_remove1, E. }
-      rewrite CH, CR. repeat split; auto; apply Y6; auto.
+      rewrite CH, CR. repeat split; auto; first [apply Y6; auto | apply Y9; auto].
   - apply NoDup_removeN, (J_cl_nodup st J).
   - intros c Hin. apply In_removeN in Hin. apply (J_cl st J). tauto.
   - intros k c Hin.
@@ -293,7 +296,7 @@ Proof.
                    = countN (c_id y) (g_rooms st)).
       { destruct (is_pub (c_kind x)); [|reflexivity]. rewrite countN_app1, E. lia. }
       unfold obj_ok; simpl. rewrite memN_app1, countN_app1, E, CR, orb_false_r, N.add_0_r.
-      repeat split; auto; try lia; apply Y6; auto.
+      repeat split; auto; try lia; first [apply Y6; auto | apply Y9; auto].
     + unfold obj_ok; simpl. rewrite memN_app1, countN_app1, N.eqb_refl, orb_true_r, Hh, Hr, Hc.
       rewrite (countN_notin _ _ Nh). simpl. repeat split; auto; try lia; try discriminate.
       * rewrite H. simpl. now apply countN_notin.
@@ -366,7 +369,8 @@ Proof.
   - intros x' Hx'. apply in_map_iff in Hx'. destruct Hx' as (y & <- & Hy).
     destruct (J_obj st J y Hy) as (Y1 & Y2 & Y3 & Y4 & Y5 & Y6 & Y7 & Y8 & Y9).
     unfold obj_ok; simpl. rewrite !hs_none_forget, !hs_live_forget, andb_false_r, (C0 _ Y1).
-    repeat split; auto. apply Y6; auto.
+    repeat split; auto; try (apply Y6; auto); try (apply Y9; auto).
+    f_equal. apply Y9; auto.
   - apply (J_cl_nodup st J).
   - apply (J_cl st J).
   - intros k c Hin. apply Hps in Hin. destruct (J_pubs st J k c Hin) as (y & Hy & Y1 & Y2 & Y3 & Y4).
@@ -401,9 +405,9 @@ Proof.
     destruct (N.eqb (c_id y) (c_id x)) eqn:E.
     + apply N.eqb_eq in E. assert (y = x) by (eapply J_unique; eauto; congruence). subst y.
       unfold obj_ok; simpl. rewrite !countN_app1, N.eqb_refl, (O7 Hc), (O8 Hc), Lh, Lr, K, Hc. simpl.
-      rewrite O3, Hc. repeat split; auto; try discriminate.
+      rewrite O3, Hc. repeat split; auto; try discriminate. apply O9; auto.
     + destruct (J_obj st J y Hy) as (Y1 & Y2 & Y3 & Y4 & Y5 & Y6 & Y7 & Y8 & Y9).
-      unfold obj_ok; simpl. rewrite !countN_app1, E, !N.add_0_r. repeat split; auto; apply Y6; auto.
+      unfold obj_ok; simpl. rewrite !countN_app1, E, !N.add_0_r. repeat split; auto; first [apply Y6; auto | apply Y9; auto].
   - apply (J_cl_nodup st J).
   - apply (J_cl st J).
   - intros k c' Hin. destruct (J_pubs st J k c' Hin) as (y & Hy & Y1 & Y2 & Y3 & Y4).
